@@ -4,5 +4,5 @@ From Coq Require Import NArith List.
 From Blue Require Import Log.ModelWire Log.Model Log.Inst.
 Require Import ExtrOcamlBasic.
 Extraction Language OCaml.
-Extraction "../ocaml/log/gen_log.ml" log_batch_build log_write log_read parse_header header_frame entry_bytes
+Extraction "../ocaml/log/gen_log.ml" log_batch_build log_write log_read log_read_again parse_header header_frame entry_bytes
   DEFAULT_ROLLOVER N.of_nat N.to_nat.
